@@ -48,7 +48,8 @@ let parse_real (t : CoqString.string) : coq_Z option =
 (* ---- fuel ---- *)
 let run_fuel = nat_of_int 200000
 let build_fuel = nat_of_int 20000
-let nf = Words.native_fn host_fops
+let cur_fops = ref host_fops
+let nf s = Words.native_fn !cur_fops s
 
 (* ---- printing ---- *)
 let kind_str (k : ekind) : str =
@@ -247,8 +248,8 @@ let step (ss : sess) (t : str array) : str =
   let upd (txt, so) = (match so with Some s' -> ss.states.(ss.cur) <- s' | None -> ()); txt in
   let optz x = if x = "-" then None else Some (z_of_hex (Printf.sprintf "%x" (int_of_string x))) in
   match t.(0) with
-  | "eval" -> upd (res_str (Build.eval host_fops parse_real run_fuel build_fuel (coq_of_string (string_of_hexbytes t.(1))) s))
-  | "compile" -> upd (res_str (Build.compile host_fops parse_real run_fuel build_fuel (coq_of_string (string_of_hexbytes t.(1))) s))
+  | "eval" -> upd (res_str (Build.eval !cur_fops parse_real run_fuel build_fuel (coq_of_string (string_of_hexbytes t.(1))) s))
+  | "compile" -> upd (res_str (Build.compile !cur_fops parse_real run_fuel build_fuel (coq_of_string (string_of_hexbytes t.(1))) s))
   | "run" -> (match Vm.run nf run_fuel s with Some r -> upd (res_str r) | None -> raise Unsupported)
   | "next" -> upd (res_str (Vm.next nf s))
   | "rnext" -> upd (res_str (Vm.rnext s))
@@ -327,7 +328,8 @@ let split_steps (t : str array) : str array list =
   go [] [] l
 
 (* the whole case is outside the model as soon as one step is *)
-let run (t : str array) : str * str =
+let run ?(flocq = false) (t : str array) : str * str =
+  cur_fops := (if flocq then F64.flocq_fops else host_fops);
   let ss = { states = [| Boot.boot |]; cur = 0 } in
   try
     let outs = SL.map (fun st -> step ss st) (split_steps t) in
